@@ -20,6 +20,7 @@ import IocProofs.Lemmas.M2LogEarly
 import IocProofs.Lemmas.M2Examples
 import IocProofs.Lemmas.SemFactory2
 import IocProofs.Lemmas.SemPopulate
+import IocProofs.Lemmas.SemInit
 namespace Ioc.C05
 open Ioc Ioc.M2 Ioc.M2.Lc
 
@@ -264,5 +265,43 @@ theorem C05_code_populateComponent (d : Sem.PC) :
     are obtained and injected, then 7 is tried and the error returned — the second point is never injected -/
 example : Sem.populateModel { n := 1, resolveOk := true, props := [[5, 6], [7]], getOk := (· != 7), injectOk := fun _ => true } =
     ([.resolve, .get 5, .get 6, .inject 0 [5, 6], .get 7], false) := by decide
+
+/-! ### the tie to the code: InitializeComponent and invokeInitMethods (regenerated)
+
+`Ioc.Progs.del_InitializeComponent`, `del_invokeInitMethods`, `del_applyBefore`, `del_applyAfter` are the syntax trees of the
+delegate's initialization path (container/factory/post_processor_registration_delegate.go:95-171).  For EVERY list of
+post-processors, every behaviour of their callbacks (error / nil / another component) and every component (with or without
+AfterPropertiesSet / Init, succeeding or failing) the regenerated InitializeComponent makes exactly the calls of
+`Sem.initializeModel`, in that order: every before-initialization callback in list order (each fed the previous result),
+then AfterPropertiesSet, then Init — each at most once, on the component the before-chain handed over —, then every
+after-initialization callback in list order; the first error ends everything; a nil from a before-callback hands back the
+original component without initializing it.  This is the order `C05_once_in_order` states for the machine's event log. -/
+
+theorem C05_code_invokeInitMethods (procs : List Nat) (before after : Nat → Nat → Order.Res Nat) (im : Sem.InitM) (c : Nat)
+    (w : List Sem.IEv) :
+    Go.run (Sem.initBase procs before after im) Progs.del_invokeInitMethods [.str "n", Sem.encC c] w =
+      some (if (Sem.initMethods im c).2 then Sem.errN else .nil, w ++ (Sem.initMethods im c).1) :=
+  Sem.invokeInitMethods_sem procs before after im c w
+
+theorem C05_code_InitializeComponent (procs : List Nat) (before after : Nat → Nat → Order.Res Nat) (im : Sem.InitM) (c : Nat) :
+    Go.run (Sem.initFull procs before after im) Progs.del_InitializeComponent [.str "n", Sem.encC c] [] =
+      some (Sem.encAfter (Sem.initializeModel procs before after im c).1, (Sem.initializeModel procs before after im c).2) :=
+  Sem.initializeComponent_sem procs before after im c
+
+/-- … and `Order.initializeComponent` (M4, what C12's invocation-order theorems are about) is that function -/
+theorem C05_code_initialize_is_model (procs : List Nat) (before after : Nat → Nat → Order.Res Nat) (im : Sem.InitM) (c : Nat) :
+    Order.initializeComponent before after (fun w => (Sem.initMethods im w).2) procs c =
+      (match Sem.beforeLoop before procs c with
+       | (lb, .err) => (lb, [], none)
+       | (lb, .nil) => (lb, [], some c)
+       | (lb, .val w1) =>
+         if (Sem.initMethods im w1).2 then (lb, [], none)
+         else (lb, (Sem.afterLoop after procs w1).1, (Sem.afterLoop after procs w1).2)) :=
+  Sem.initializeModel_eq procs before after im c
+
+/-- non-vacuity: two processors; the first wraps 7 into 8 before initialization; component 8 has both init methods -/
+example : Sem.initializeModel [1, 2] (fun p c => if p == 1 then .val (c + 1) else .val c) (fun _ c => .val c)
+    { hasAps := fun _ => true, apsOk := fun _ => true, hasInit := fun _ => true, initOk := fun _ => true } 7 =
+    (some 8, [.before 1, .before 2, .aps 8, .init 8, .after 1, .after 2]) := by decide
 
 end Ioc.C05
